@@ -1000,6 +1000,7 @@ func VerifC04_LabelInvariant() {
 	w.Srv.Put("configmaps", old)
 
 	nDes := 1 + verifC04Pick("desired", 2)
+	existing := rt.Bool("the-first-desired-child-is-the-one-the-parent-has")
 	var desired []*unstructured.Unstructured
 	type des struct {
 		hasApp, hasCU bool
@@ -1009,6 +1010,12 @@ func VerifC04_LabelInvariant() {
 	for i := 0; i < nDes; i++ {
 		d := des{hasApp: rt.Bool("desired-has-app-label" + verifC04Num[i])}
 		o := env.ConfigMap("ns", "d"+verifC04Num[i], "", "v")
+		if i == 0 && existing {
+			// the hook returns the child the parent HAS (owned, matching so far) with
+			// whatever labels it now wants: the invariant holds for a child that is
+			// updated as for one that is created
+			o = env.ConfigMap("ns", "old", "", "v2")
+		}
 		if d.hasApp {
 			d.app = rt.String("desired-app-label" + verifC04Num[i])
 			env.SetLabel(o, "app", d.app)
@@ -1070,6 +1077,12 @@ func VerifC04_LabelInvariant() {
 	}
 	rt.Cover("match/reconciled")
 	rt.Assert(err == nil, "match/error")
+	if existing {
+		// (the accounting below is about created children and the deleted one)
+		rt.Cover("match/existing-child-kept")
+		rt.Assert(w.Srv.Peek("configmaps", "ns", "old") != nil, "match/desired-existing-child-deleted")
+		return
+	}
 	creates, deletes, others := 0, 0, 0
 	for _, r := range w.Srv.Writes() {
 		if r.Resource == "things" {
